@@ -11,10 +11,11 @@ def bytesLt : Bytes → Bytes → Bool
   | _ :: _, [] => false
   | a :: as, b :: bs => a < b || (a == b && bytesLt as bs)
 
-/-- stable insertion sort -/
+/-- stable insertion sort (`slice::sort_by` is stable): `x` came before everything in the list, so
+it goes in front of the first element that is not strictly smaller -/
 def insertBy {α} (lt : α → α → Bool) (x : α) : List α → List α
   | [] => [x]
-  | y :: ys => if lt x y then x :: y :: ys else y :: insertBy lt x ys
+  | y :: ys => if lt y x then y :: insertBy lt x ys else x :: y :: ys
 def sortBy {α} (lt : α → α → Bool) (l : List α) : List α := l.foldr (insertBy lt) []
 
 /-- `consolidate`: sort by key, accumulate runs, drop zero counts (result ascending by key) -/
@@ -130,5 +131,13 @@ def Region.index (r : Region) (i : Nat × Nat) : Option Bytes :=
   if i.1 ≤ i.2 ∧ i.2 ≤ r.inner.length then some (r.codec.decodeBytes ((r.inner.drop i.1).take (i.2 - i.1))) else none
 def Region.merge (srcs : List Region) : Region := ⟨[], Dict.newFrom (srcs.map (·.codec))⟩
 def Region.clear (_ : Region) : Region := Region.default
+
+/-! Ghost state (no executable content): the representation invariant of the dictionary, proved in
+`Proofs/Codec.lean` to hold for every dictionary reachable from `default` (C07). -/
+
+/-- every dictionary hit decodes back (through a one-byte tag), and the statistics never hold the empty string -/
+structure Dict.WF (d : Dict) : Prop where
+  hit : ∀ s t, d.lookup s = some t → d.decode.get t = some s ∧ s ≠ [] ∧ t < 256
+  stats : ∀ e ∈ d.mg.inner, e.1 ≠ []
 
 end FC.Codec
